@@ -148,6 +148,15 @@ CHECKS = {
             "dialects x alias on/off (6.9k SQL pairs); SQLite additionally prepares every statement.",
             "Trusted: spec/SqlLex.tla as the definition of SQL string-literal and quoted-identifier tokens (standard "
             "SQL quoting: doubled quotes, no backslash escapes)."),
+    "C09": ("DESIGN.md 6/C09",
+            "SQL emitted by the three dialects for TLC-generated typed filters, their leaves and their call skeletons is "
+            "a trace validated by TLC (Trace_SqlRead) with the SQL lexer automaton and the SQL precedence reader "
+            "SqlRead: well-formedness, compositional structure equality, argument-once, alias clause",
+            "Exhaustive per profile up to the operator bound + simulated deeper filters (36k SQL texts quick): the tree "
+            "read with standard SQL precedence must equal the tree composed from the spec's operator table, the "
+            "leaves' SQL and the skeletons' SQL - no per-function template is known to the oracle.",
+            "Trusted: spec/SqlLex.tla, spec/SqlRead.tla (standard precedence, || between comparison and + -), the "
+            "operator table BinName. floor/ceiling on the standard dialect: known finding (pinned templates)."),
 }
 
 PENDING = ["C01", "C02", "C03", "C04", "C06", "C07", "C08", "C09", "C10", "C11", "C12", "C13", "C14", "C15",
